@@ -230,5 +230,59 @@ pub fn run(r: &mut Runner) -> &'static str {
     r.assumptions.push("trusted: reference encoders in harness/src/oracle/enc.rs (shared with C20 and C07); a partly consumed TypeLengthValues iterator still stands for its whole section".into());
     let n = r.n(120_000, 3_000_000);
     r.random("c10.histories", n, 260, &gen_case, &judge);
+    // directed: fill the buffer to within 0..3 bytes of a full-size header, then write one small value of each kind
+    let work = |shard: usize, nshards: usize, st: &mut Stats, _stop: &std::sync::atomic::AtomicBool| -> Option<(History, Fail)> {
+        let smalls: Vec<Val> = vec![
+            Val::Type(3),
+            Val::Int { ty: 0, image: 0xAB },
+            Val::Int { ty: 2, image: 0x01020304 },
+            Val::Int { ty: 10, image: 7 },
+            Val::Tlv { kind: 9, len: 0, seed: 1 },
+            Val::TupleU8 { kind: 9, len: 1, seed: 3 },
+            Val::TupleType { ty: 4, len: 2, seed: 3 },
+            Val::Bytes { len: 1, seed: 5 },
+            Val::Bytes { len: 0, seed: 5 },
+            Val::Section { len: 2, seed: 7 },
+            Val::Tlvs { items: vec![(1, 1, 9)], advance: 1 },
+            Val::Addr(RefAddr2::V4 { src: [1, 2, 3, 4], dst: [5, 6, 7, 8], sport: 9, dport: 10 }),
+        ];
+        let ctors = [Ctor::New { vc: 0x21, afp: 0x00 }, Ctor::WithAddresses { vc: 0x20, proto: 2, addr: RefAddr2::V4 { src: [9, 9, 9, 9], dst: [8, 8, 8, 8], sport: 1, dport: 2 } }];
+        let mut idx = 0usize;
+        for ctor in &ctors {
+            let base = match ctor {
+                Ctor::New { .. } => 0usize,
+                _ => 12,
+            };
+            for k in 0..=3usize {
+                for small in &smalls {
+                    for variant in 0..4 {
+                        idx += 1;
+                        if idx % nshards != shard {
+                            continue;
+                        }
+                        let big = Op::Payload { v: Val::Bytes { len: 65535 - base - k, seed: 11 }, by_ref: false };
+                        let sm = Op::Payload { v: small.clone(), by_ref: variant % 2 == 1 };
+                        let ops = match variant {
+                            0 => vec![Op::SetLength(Some(9)), big, sm],
+                            1 => vec![big, sm, Op::SetLength(Some(65535))],
+                            2 => vec![big, Op::Payloads { vs: vec![small.clone(), small.clone()], native: false }, Op::SetLength(Some(0))],
+                            _ => vec![big, sm],
+                        };
+                        let h = History { ctor: ctor.clone(), ops };
+                        if let Err(f) = judge(&h, st) {
+                            return Some((h, f));
+                        }
+                    }
+                }
+            }
+        }
+        None
+    };
+    r.bulk(
+        "c10.at-the-size-limit",
+        Some("2 constructors x payload filled to 65535-{0,1,2,3} bytes x one small value of each of 12 kinds x 4 variants (explicit length before / after, batch of two, no explicit length)"),
+        &work,
+        &judge,
+    );
     "exploration"
 }
